@@ -441,6 +441,12 @@ func typedFactory[T any](sp spec, rows []T, n int, sortCol string, maxRows int64
 		if sp.DictMax > 0 {
 			o = append(o, parquet.DictionaryMaxBytes(sp.DictMax))
 		}
+		if sp.Family != "sorting" && sp.Case.Seed%2 == 1 {
+			// declared (not enforced) sorting columns of the writer configuration:
+			// the last leaf, descending, nulls first (so that a zeroed entry differs)
+			cols := parquet.SchemaOf(new(T)).Columns()
+			o = append(o, parquet.SortingWriterConfig(parquet.SortingColumns(parquet.NullsFirst(parquet.Descending(cols[len(cols)-1]...)))))
+		}
 		return append(o, kvOptions(sp.KV)...)
 	}
 	switch {
